@@ -7,7 +7,8 @@ def variants(scn):
     s = len(str(scn)) % 2
     return [dict(hot=h, tmap=t, profile="plain", salt=(s + i) % 2, form="pipe")
             for i, (h, t) in enumerate([(True, "spread"), (False, "spread"), (True, "bunched"), (False, "same")])] + [
-        dict(hot=bool(s), tmap="spread", profile="falsy", salt=len(str(scn)) % 8, form="pipe")]   # seeds/defaults/elements incl. None (all rotations: C08)
+        dict(hot=bool(s), tmap="spread", profile="falsy", salt=len(str(scn)) % 8, form="pipe"),   # seeds/defaults/elements incl. None (all rotations: C08)
+        dict(hot=not bool(s), tmap="spread", profile="frac", salt=0, form="pipe")]   # min/max family over reals closer together than 1
 
 
 def run(tier):
